@@ -124,6 +124,14 @@ def main(tier, seed):
                     t_, m_ = rng.choice(cands)
                     kw = "default" if b == "cpp" else "new"
                     m_.params = [(kw, ("prim", "u8")), (kw + "_", ("prim", "u16"))] + m_.params
+            if i % 7 == 4 and b == "cpp":
+                # directed probe (F61): parameters named after typedefs the generated C headers use themselves
+                cands61 = [(t, m) for t, m in prog.methods() if m.name != "make" and not any(pt[0] in ("write", "cb", "tr") for _, pt in m.params)]
+                if cands61:
+                    t_, m_ = rng.choice(cands61)
+                    # (legal C on its own; it breaks the prototype when a later parameter is *typed* with the typedef, as DiplomatChar is)
+                    m_.params = [("char32_t", ("prim", "u8"))] + m_.params + [("vfc", ("prim", "DiplomatChar"))]
+                    m_.name = "vf_f61"
             if i % 7 == 6 and b == "js":
                 # directed probe (F54): a member named `constructor` (not a reserved word, but special inside a JS class body)
                 ops = [t for t in prog.types() if t.kind == "opaque"]
@@ -320,6 +328,8 @@ def main(tier, seed):
                 key = {"kind": "cpp", "signature": "callback with an Option argument / Option return / primitive-slice argument: fn_traits cannot convert it"}
             elif lang == "cpp" and isinstance(i, int) and i % 7 == 5 and "fn_traits" in msg and "vf_f52" in msg:
                 key = {"kind": "cpp", "signature": "callback with an owned-opaque argument or an Option<struct|enum> argument / return: fn_traits cannot convert it"}
+            elif lang in ("c", "cpp") and isinstance(i, int) and i % 7 == 4 and re.search(r"char(32|16)_t", msg):
+                key = {"kind": lang, "signature": "parameter named after a typedef the C headers use (char32_t / char16_t)"}
             elif lang == "js" and isinstance(i, int) and i % 7 == 6 and ("field named 'constructor'" in msg or "only have one constructor" in msg or "constructor may not be" in msg):
                 key = {"kind": "js", "signature": "struct field or method named constructor"}
             elif lang in ("cpp", "c") and isinstance(i, int) and i % 5 == 4 and (KW_LINE.search(msg) or KW_MEMBER.search(msg)):
